@@ -370,27 +370,35 @@ theorem hashScan_eq_page (db : DB) (k : Bytes) (cursor : Int) (pat : Bytes) (cou
     simp only [sqlLimit_goCount]
     rfl
 
-/-- `rzset.Tx.Scan`: rows in (SCORE, ELEM) order, max-rowid cursor rule. -/
+/-- `rzset.Tx.Scan`: rows in the pattern-dependent order `zScanByElem pat` selects, max-rowid
+cursor rule; a pattern whose literal prefix looks numeric is outside the model. -/
 theorem zScan_eq_page (db : DB) (k : Bytes) (cursor : Int) (pat : Bytes) (count now : Int) :
     zScan db k cursor pat count now =
-      match db.liveKeyT k TZSet now with
-      | none => .ok (.list [.int 0, .list []]) db
-      | some r =>
-        .ok (.list [.int (nextCursorMax (page (zRowsOf db r.id)
-                      (fun x => Glob.sqliteGlob pat x.elem) cursor (goCount count))),
-                    .list ((page (zRowsOf db r.id)
-                      (fun x => Glob.sqliteGlob pat x.elem) cursor (goCount count)).map
-                      (fun x => zItem x.val))]) db := by
+      match zScanByElem pat with
+      | none => .err .outOfDomain db
+      | some b =>
+        match db.liveKeyT k TZSet now with
+        | none => .ok (.list [.int 0, .list []]) db
+        | some r =>
+          .ok (.list [.int (nextCursorMax (page (zRowsOfBy b db r.id)
+                        (fun x => Glob.sqliteGlob pat x.elem) cursor (goCount count))),
+                      .list ((page (zRowsOfBy b db r.id)
+                        (fun x => Glob.sqliteGlob pat x.elem) cursor (goCount count)).map
+                        (fun x => zItem x.val))]) db := by
   unfold zScan zLiveRows
-  cases db.liveKeyT k TZSet now with
-  | none =>
-    simp only [sqlLimit_goCount, List.filter_nil, limit_nil]
-    rfl
-  | some r =>
-    simp only [zRowsOf]
-    rw [page_map_view ZRow.rowid, nextCursorMax_map_view ZRow.rowid, List.map_map]
-    simp only [sqlLimit_goCount]
-    rfl
+  cases zScanByElem pat with
+  | none => rfl
+  | some b =>
+    cases db.liveKeyT k TZSet now with
+    | none =>
+      cases b <;>
+        simp only [sqlLimit_goCount, List.filter_nil, limit_nil, sortBy, List.foldr_nil,
+          Bool.false_eq_true, if_false, if_true] <;> rfl
+    | some r =>
+      simp only [zRowsOfBy]
+      rw [page_map_view ZRow.rowid, nextCursorMax_map_view ZRow.rowid, List.map_map]
+      simp only [sqlLimit_goCount]
+      rfl
 
 /-! ### the scanners -/
 
@@ -471,9 +479,11 @@ theorem length_hashRowsOf (db : DB) (kid : Int) : (hashRowsOf db kid).length ≤
   simp only [hashRowsOf, hashRows, List.length_map, length_sortBy]
   exact List.length_filter_le _ _
 
-theorem length_zRowsOf (db : DB) (kid : Int) : (zRowsOf db kid).length ≤ db.zsets.length := by
-  simp only [zRowsOf, zRows, List.length_map, length_sortBy]
-  exact List.length_filter_le _ _
+theorem length_zRowsOfBy (b : Bool) (db : DB) (kid : Int) :
+    (zRowsOfBy b db kid).length ≤ db.zsets.length := by
+  cases b <;>
+    simp only [zRowsOfBy, zRows, List.length_map, length_sortBy, Bool.false_eq_true, if_false,
+      if_true] <;> exact List.length_filter_le _ _
 
 /-- `rset.Scanner` is the abstract iteration over the set's rows in ELEM order, max-rowid rule. -/
 theorem setScanner_eq (db : DB) (k pat : Bytes) (pageSize now : Int) :
@@ -507,21 +517,35 @@ theorem hashScanner_eq (db : DB) (k pat : Bytes) (pageSize now : Int) :
     apply scannerLoop_iterate _ .max _ _ _ _ _ (length_hashRowsOf db r.id)
     intro c; rw [hashScan_eq_page, hl]; rfl
 
-/-- `rzset.Scanner`: rows in (SCORE, ELEM) order, max-rowid rule. -/
+theorem scannerLoop_error (step : Int → Res) (fuel : Nat)
+    (hstep : ∀ c, scanResult (step c) = none) :
+    scannerLoop step (fuel + 1) 0 = [] := by
+  simp [scannerLoop, hstep]
+
+/-- `rzset.Scanner`: rows in the pattern-dependent order, max-rowid rule; outside the modelled
+patterns the first call errs and the scanner hands out nothing. -/
 theorem zScanner_eq (db : DB) (k pat : Bytes) (pageSize now : Int) :
     zScanner db k pat pageSize now =
-      match db.liveKeyT k TZSet now with
+      match zScanByElem pat with
       | none => []
-      | some r => (iterate .max (zRowsOf db r.id) (fun x => Glob.sqliteGlob pat x.elem)
-          (goCount pageSize)).map (fun x => zItem x.val) := by
+      | some b =>
+        match db.liveKeyT k TZSet now with
+        | none => []
+        | some r => (iterate .max (zRowsOfBy b db r.id) (fun x => Glob.sqliteGlob pat x.elem)
+            (goCount pageSize)).map (fun x => zItem x.val) := by
   unfold zScanner
-  cases hl : db.liveKeyT k TZSet now with
+  cases hb : zScanByElem pat with
   | none =>
-    apply scannerLoop_nothing
-    intro c; rw [zScan_eq_page, hl]; rfl
-  | some r =>
-    apply scannerLoop_iterate _ .max _ _ _ _ _ (length_zRowsOf db r.id)
-    intro c; rw [zScan_eq_page, hl]; rfl
+    apply scannerLoop_error
+    intro c; rw [zScan_eq_page, hb]; rfl
+  | some b =>
+    cases hl : db.liveKeyT k TZSet now with
+    | none =>
+      apply scannerLoop_nothing
+      intro c; rw [zScan_eq_page, hb, hl]; rfl
+    | some r =>
+      apply scannerLoop_iterate _ .max _ _ _ _ _ (length_zRowsOfBy b db r.id)
+      intro c; rw [zScan_eq_page, hb, hl]; rfl
 
 /-- the `(kid, elem)` index order agrees with the rowid order: what inserting members in
 ascending byte order produces -/
@@ -626,11 +650,11 @@ def d10ZDb : DB :=
               { rowid := 3, kid := 1, elem := [99], score := .fin 1 }] }
 
 theorem d10ZDb_rows :
-    zRowsOf d10ZDb 1 = [⟨3, { rowid := 3, kid := 1, elem := [99], score := .fin 1 }⟩,
+    zRowsOfBy false d10ZDb 1 = [⟨3, { rowid := 3, kid := 1, elem := [99], score := .fin 1 }⟩,
                         ⟨2, { rowid := 2, kid := 1, elem := [98], score := .fin 2 }⟩,
                         ⟨1, { rowid := 1, kid := 1, elem := [97], score := .fin 3 }⟩] := by decide
 
-theorem glob_star_zabc : ∀ r ∈ zRowsOf d10ZDb 1,
+theorem glob_star_zabc : ∀ r ∈ zRowsOfBy false d10ZDb 1,
     Glob.sqliteGlob [42] r.val.elem = (fun _ : ZRow => true) r.val := by
   intro r hr
   rw [d10ZDb_rows] at hr
@@ -642,12 +666,51 @@ theorem glob_star_zabc : ∀ r ∈ zRowsOf d10ZDb 1,
 /-- `ZSCAN z 0 MATCH * COUNT 1` iterated to the end hands out `c` (score 1) only. -/
 theorem zScanner_d10 : zScanner d10ZDb [122] [42] 1 0 = [zItem { rowid := 3, kid := 1, elem := [99], score := .fin 1 }] := by
   rw [zScanner_eq]
+  have hb : zScanByElem [42] = some false := by decide
   have hl : d10ZDb.liveKeyT [122] TZSet 0 = some d10ZKey := by decide
-  rw [hl]
+  rw [hb, hl]
   have hid : d10ZKey.id = 1 := rfl
   simp only [hid]
-  rw [iterate_congr .max (zRowsOf d10ZDb 1) (p := fun x : ZRow => Glob.sqliteGlob [42] x.elem)
+  rw [iterate_congr .max (zRowsOfBy false d10ZDb 1) (p := fun x : ZRow => Glob.sqliteGlob [42] x.elem)
     (q := fun _ => true) glob_star_zabc (goCount 1), d10ZDb_rows]
+  rfl
+
+/-- `ZADD z 1 mc`, `ZADD z 2 mb`, `ZADD z 3 ma`: rowids 1, 2, 3 follow the (score, elem) order,
+but the member-byte order, which a pattern with a literal prefix selects, is the reverse -/
+def d10ZDbPrefix : DB :=
+  { keys := [d10ZKey]
+    zsets := [{ rowid := 1, kid := 1, elem := [109, 99], score := .fin 1 },
+              { rowid := 2, kid := 1, elem := [109, 98], score := .fin 2 },
+              { rowid := 3, kid := 1, elem := [109, 97], score := .fin 3 }] }
+
+theorem d10ZDbPrefix_rows :
+    zRowsOfBy true d10ZDbPrefix 1
+      = [⟨3, { rowid := 3, kid := 1, elem := [109, 97], score := .fin 3 }⟩,
+         ⟨2, { rowid := 2, kid := 1, elem := [109, 98], score := .fin 2 }⟩,
+         ⟨1, { rowid := 1, kid := 1, elem := [109, 99], score := .fin 1 }⟩] := by decide
+
+theorem glob_mstar : ∀ r ∈ zRowsOfBy true d10ZDbPrefix 1,
+    Glob.sqliteGlob [109, 42] r.val.elem = (fun _ : ZRow => true) r.val := by
+  intro r hr
+  rw [d10ZDbPrefix_rows] at hr
+  simp only [List.mem_cons, List.not_mem_nil, or_false] at hr
+  rcases hr with rfl | rfl | rfl <;>
+    simp [Glob.sqliteGlob, Glob.parsePat, Glob.parsePatF, Glob.decode, Glob.matchToks, Glob.cstr,
+      Glob.cSTAR, Glob.cQM, Glob.cLB]
+
+/-- `ZSCAN z 0 MATCH m* COUNT 1` iterated to the end hands out `ma` only. -/
+theorem zScanner_d10_prefix :
+    zScanner d10ZDbPrefix [122] [109, 42] 1 0
+      = [zItem { rowid := 3, kid := 1, elem := [109, 97], score := .fin 3 }] := by
+  rw [zScanner_eq]
+  have hb : zScanByElem [109, 42] = some true := by decide
+  have hl : d10ZDbPrefix.liveKeyT [122] TZSet 0 = some d10ZKey := by decide
+  rw [hb, hl]
+  have hid : d10ZKey.id = 1 := rfl
+  simp only [hid]
+  rw [iterate_congr .max (zRowsOfBy true d10ZDbPrefix 1)
+    (p := fun x : ZRow => Glob.sqliteGlob [109, 42] x.elem) (q := fun _ => true) glob_mstar
+    (goCount 1), d10ZDbPrefix_rows]
   rfl
 
 end Redka.Scan
